@@ -112,6 +112,8 @@ def c14_run(ctx):
             ctx.samples.append(sample)
     ctx.extra["state_counts"] = sorted({n for n, _ in ns})
     ctx.stats["engines"]["dispatch"] = len(ns)
+    # machine level: the first declared state is the initial state after every (re)activation, ids inside callbacks
+    machine_run("C14", ("random", "reactivate"))(ctx)
 
 
 def c15_run(ctx):
